@@ -116,7 +116,9 @@ def task_add_proton(pr, repo):
     V = repo.cls('propka.vector_algebra.Vector')
     for prior_h in (0, 1):
         def thunk(ex, ctx, prior_h=prior_h):
-            conf = record('conf', repo.cls('propka.conformation_container.ConformationContainer'), atoms=[], chains=['A'],
+            # chains=[]: the conformation has not registered chain 'A' yet (a conformation completed from copies of another one
+            # learns its chains only when hydrogens are added through add_atom)
+            conf = record('conf', repo.cls('propka.conformation_container.ConformationContainer'), atoms=[], chains=[],
                           molecular_container=None)
             heavy = record('c', A, element='C', name='CA')
             at = xyz('at', A, element='N', name='NE2', res_name='HIS', chain_id='A', res_num=57, type='atom',
@@ -138,6 +140,7 @@ def task_add_proton(pr, repo):
             conj = [h.attrs['element'] == 'H', h.attrs['bonded_atoms'] == [at],
                     at.attrs['number_of_protons_to_add'] == I('nprot') - 1,
                     any(x is h for x in conf.attrs['atoms']) and len(conf.attrs['atoms']) == 1,
+                    conf.attrs['chains'] == ['A'] and h.attrs.get('conformation_container') is conf,
                     h.attrs['res_num'] == 57 and h.attrs['chain_id'] == 'A' and h.attrs['res_name'] == 'HIS' and h.attrs['type'] == 'atom']
             import z3 as _z3
             for c in 'xyz':
@@ -147,7 +150,7 @@ def task_add_proton(pr, repo):
                 hc = h.attrs[c]
                 conj.append(Sym(_z3.IsInt(hc.e * 1000)) if isinstance(hc, Sym) else (abs(hc * 1000 - round(hc * 1000)) < 1e-9))
             ctx.oblige('AP[%d hydrogen(s) already there]: new hydrogen on the 0.001 A grid within 0.0005 A (per coordinate) of the requested position, '
-                       'bonded to exactly this heavy atom, registered in its conformation with its residue labels; '
+                       'bonded to exactly this heavy atom, registered in its conformation (atom list, chain list, back reference) with its residue labels; '
                        'protons-to-add decreases by one' % prior_h, And(*conj))
         pr.explore(ex, thunk, 'add_proton')
 
